@@ -75,18 +75,15 @@ variable [OfNat α 0] [Add α] [Sub α] [Mul α] [Div α] [Neg α]
 def vget (X : Array α) (i : Nat) : α := X.getD i 0
 def vadd (Y : Array α) (i : Nat) (d : α) : Array α := Y.setIfInBounds i (vget Y i + d)
 
-/-- `CBigLinProb::MultA(X,Y)`: same accumulation order as the C++ loops -/
-def multA (M : LinProb α) (X : Array α) : Array α := Id.run do
-  let mut Y : Array α := Array.replicate M.n 0
-  for i in [0:M.n] do
-    match M.rows.getD i [] with
-    | [] => pure ()
-    | (_, d) :: rest =>
-      Y := vadd Y i (d * vget X i)
-      for (c, x) in rest do
-        Y := vadd Y i (x * vget X c)
-        Y := vadd Y c (x * vget X i)
-  return Y
+/-- one row of `MultA`: `Y[i] += d X[i]`, then for every further entry `(c, x)` of the row `Y[i] += x X[c]; Y[c] += x X[i]` -/
+def multARow (X Y : Array α) (i : Nat) : Row α → Array α
+  | [] => Y
+  | (_, d) :: rest =>
+    rest.foldl (fun Y cx => vadd (vadd Y i (cx.2 * vget X cx.1)) cx.1 (cx.2 * vget X i)) (vadd Y i (d * vget X i))
+
+/-- `CBigLinProb::MultA(X,Y)`: same accumulation order as the C++ loops (rows in order, entries of a row in order) -/
+def multA (M : LinProb α) (X : Array α) : Array α :=
+  (List.range M.n).foldl (fun Y i => multARow X Y i (M.rows.getD i [])) (Array.replicate M.n 0)
 
 /-- `CBigLinProb::Dot` -/
 def dot (n : Nat) (X Y : Array α) : α := Id.run do
